@@ -469,4 +469,337 @@ theorem encFields_decFields : ∀ (fs : Fields) (env : Env) (men tak : List Stri
       cases v <;> first | exact absurd rfl hna | (simp [encFields, hl, heq, c1, c2]; simpa using htak)
 end
 
+/-! ### termination and progress -/
+
+theorem readVar_err (i : Info) (bs : Bytes) (e : Err) (h : readVar i bs = .error e) :
+    e = .structural ∨ e = .truncated ∨ e = .range := by
+  unfold readVar at h
+  split at h
+  · cases h; simp
+  split at h
+  · cases h; simp
+  simp only at h
+  split at h
+  · cases h
+  · cases h; simp
+
+theorem readPrefixed_err (i : Info) (bs : Bytes) (e : Err) (h : readPrefixed i bs = .error e) :
+    e = .structural ∨ e = .truncated ∨ e = .range := by
+  unfold readPrefixed at h
+  split at h
+  · rename_i e' he; cases h; exact readVar_err i bs _ he
+  · split at h
+    · cases h
+    · cases h; simp
+
+theorem decListWith_ne_outOfFuel (fd : Bytes → Except Err (Val × Bytes)) (hfd : ∀ bs, fd bs ≠ .error .outOfFuel)
+    (fuel : Nat) (bs : Bytes) (hf : bs.length < fuel) : decListWith fd fuel bs ≠ .error .outOfFuel := by
+  rcases decListWith_fuel fd fuel bs hf with h | ⟨bs', h⟩
+  · exact h
+  · exact absurd h (hfd bs')
+
+mutual
+/-- The fuel that `dec` hands to the element loop (`body.length + 1`) is never used up. -/
+theorem dec_ne_outOfFuel : ∀ (t : Ty) (bs : Bytes), dec t bs ≠ .error .outOfFuel
+  | .uint w, bs => by simp only [dec]; split <;> (intro h; cases h)
+  | .enum i, bs => by
+    simp only [dec]; split
+    · rename_i e he; intro h; cases h; rcases readVar_err _ _ _ he with h | h | h <;> cases h
+    · intro h; cases h
+  | .arr k, bs => by simp only [dec]; split <;> (intro h; cases h)
+  | .bytes i, bs => by
+    simp only [dec]; split
+    · rename_i e he; intro h; cases h; rcases readPrefixed_err _ _ _ he with h | h | h <;> cases h
+    · intro h; cases h
+  | .vec i e, bs => by
+    simp only [dec]; split
+    · rename_i e he; intro h; cases h; rcases readPrefixed_err _ _ _ he with h | h | h <;> cases h
+    · rename_i body rest hb
+      split
+      · rename_i e' he; intro h; cases h
+        exact decListWith_ne_outOfFuel (dec e) (dec_ne_outOfFuel e) _ body (by omega) he
+      · intro h; cases h
+  | .struct fs, bs => by
+    simp only [dec]; split
+    · rename_i e he; intro h; cases h; exact decFields_ne_outOfFuel fs _ _ _ bs he
+    · intro h; cases h
+  | .bad, bs => by simp [dec]
+theorem decFields_ne_outOfFuel : ∀ (fs : Fields) (env : Env) (men tak : List String) (bs : Bytes),
+    decFields env men tak fs bs ≠ .error .outOfFuel
+  | .nil, env, men, tak, bs => by simp only [decFields]; split <;> (intro h; cases h)
+  | .plain name t rest, env, men, tak, bs => by
+    simp only [decFields]; split
+    · rename_i e he; intro h; cases h; exact dec_ne_outOfFuel t bs he
+    · split
+      · rename_i e he; intro h; cases h; exact decFields_ne_outOfFuel rest _ _ _ _ he
+      · intro h; cases h
+  | .variant name sel val t rest, env, men, tak, bs => by
+    simp only [decFields]; split
+    · intro h; cases h
+    · split
+      · split
+        · rename_i e he; intro h; cases h; exact decFields_ne_outOfFuel rest _ _ _ _ he
+        · intro h; cases h
+      · split
+        · intro h; cases h
+        · split
+          · rename_i e he; intro h; cases h; exact dec_ne_outOfFuel t bs he
+          · split
+            · rename_i e he; intro h; cases h; exact decFields_ne_outOfFuel rest _ _ _ _ he
+            · intro h; cases h
+end
+
+/-- A value of a positive-width type consumes at least one byte. -/
+theorem dec_shrinks (t : Ty) (bs rest : Bytes) (v : Val) (hp : t.pos = true) (h : dec t bs = .ok (v, rest)) :
+    rest.length < bs.length := by
+  obtain ⟨u, e1, e2⟩ := enc_dec t bs rest v h
+  have := enc_pos t v u hp e2
+  rw [e1]; simp; omega
+
+theorem decListWith_ne_noProgress (fd : Bytes → Except Err (Val × Bytes)) (h1 : ∀ bs, fd bs ≠ .error .noProgress)
+    (h2 : ∀ bs v rest, fd bs = .ok (v, rest) → rest.length < bs.length) :
+    ∀ (fuel : Nat) (bs : Bytes), decListWith fd fuel bs ≠ .error .noProgress := by
+  intro fuel
+  induction fuel with
+  | zero => intro bs; cases bs <;> simp [decListWith]
+  | succ fuel ih =>
+    intro bs
+    cases bs with
+    | nil => simp [decListWith]
+    | cons b bs =>
+      simp only [decListWith]
+      split
+      · rename_i e he; intro h; cases h; exact h1 _ he
+      · rename_i v rest hv
+        have := h2 _ _ _ hv
+        simp only [this, if_true]
+        split
+        · rename_i e he; intro h; cases h; exact ih rest he
+        · intro h; cases h
+
+mutual
+/-- For a well-formed type shape the element loop always advances: `noProgress` (= the Go loop spins) cannot occur. -/
+theorem dec_ne_noProgress : ∀ (t : Ty) (bs : Bytes), t.wf = true → dec t bs ≠ .error .noProgress
+  | .uint w, bs, _ => by simp only [dec]; split <;> (intro h; cases h)
+  | .enum i, bs, _ => by
+    simp only [dec]; split
+    · rename_i e he; intro h; cases h; rcases readVar_err _ _ _ he with h | h | h <;> cases h
+    · intro h; cases h
+  | .arr k, bs, _ => by simp only [dec]; split <;> (intro h; cases h)
+  | .bytes i, bs, _ => by
+    simp only [dec]; split
+    · rename_i e he; intro h; cases h; rcases readPrefixed_err _ _ _ he with h | h | h <;> cases h
+    · intro h; cases h
+  | .vec i e, bs, hw => by
+    simp only [Ty.wf, Bool.and_eq_true] at hw
+    simp only [dec]; split
+    · rename_i e he; intro h; cases h; rcases readPrefixed_err _ _ _ he with h | h | h <;> cases h
+    · rename_i body rest hb
+      split
+      · rename_i e' he; intro h; cases h
+        exact decListWith_ne_noProgress (dec e) (fun bs => dec_ne_noProgress e bs hw.1.2)
+          (fun bs v rest h => dec_shrinks e bs rest v hw.2 h) _ body he
+      · intro h; cases h
+  | .struct fs, bs, hw => by
+    simp only [dec]; split
+    · rename_i e he; intro h; cases h; exact decFields_ne_noProgress fs _ _ _ bs (by simpa [Ty.wf] using hw) he
+    · intro h; cases h
+  | .bad, bs, _ => by simp [dec]
+theorem decFields_ne_noProgress : ∀ (fs : Fields) (env : Env) (men tak : List String) (bs : Bytes),
+    fs.wf = true → decFields env men tak fs bs ≠ .error .noProgress
+  | .nil, env, men, tak, bs, _ => by simp only [decFields]; split <;> (intro h; cases h)
+  | .plain name t rest, env, men, tak, bs, hw => by
+    simp only [Fields.wf, Bool.and_eq_true] at hw
+    simp only [decFields]; split
+    · rename_i e he; intro h; cases h; exact dec_ne_noProgress t bs hw.1 he
+    · split
+      · rename_i e he; intro h; cases h; exact decFields_ne_noProgress rest _ _ _ _ hw.2 he
+      · intro h; cases h
+  | .variant name sel val t rest, env, men, tak, bs, hw => by
+    simp only [Fields.wf, Bool.and_eq_true] at hw
+    simp only [decFields]; split
+    · intro h; cases h
+    · split
+      · split
+        · rename_i e he; intro h; cases h; exact decFields_ne_noProgress rest _ _ _ _ hw.2 he
+        · intro h; cases h
+      · split
+        · intro h; cases h
+        · split
+          · rename_i e he; intro h; cases h; exact dec_ne_noProgress t bs hw.1 he
+          · split
+            · rename_i e he; intro h; cases h; exact decFields_ne_noProgress rest _ _ _ _ hw.2 he
+            · intro h; cases h
+end
+
+/-! ### allocation is bounded by the input consumed -/
+
+/-- What a successful decode may have allocated, against what it consumed. -/
+def AllocOK (v : Val) (bs rest : Bytes) : Prop :=
+  rest.length ≤ bs.length ∧ v.payload + rest.length ≤ bs.length ∧
+    (v.cells = 0 ∨ v.cells + rest.length + 1 ≤ bs.length)
+
+theorem readPrefixed_len (i : Info) (bs body rest : Bytes) (h : readPrefixed i bs = .ok (body, rest)) :
+    bs.length = i.count + body.length + rest.length ∧ (i.count = 0 → body = []) := by
+  obtain ⟨out, h1, h2⟩ := readPrefixed_inv i bs body rest h
+  have hl := encPrefixed_length i body out h1
+  refine ⟨by rw [h2]; simp; omega, ?_⟩
+  intro h0
+  unfold encPrefixed at h1
+  split at h1
+  · rename_i hc
+    have := check_lt i body.length (by omega) hc
+    rw [h0] at this
+    simp at this
+    exact this
+  · cases h1
+
+theorem decListWith_alloc (fd : Bytes → Except Err (Val × Bytes))
+    (hfd : ∀ bs v rest, fd bs = .ok (v, rest) → AllocOK v bs rest) :
+    ∀ (fuel : Nat) (bs : Bytes) (vs : List Val), decListWith fd fuel bs = .ok vs →
+      Val.payloadL vs ≤ bs.length ∧ Val.cellsL vs + vs.length ≤ bs.length := by
+  intro fuel
+  induction fuel with
+  | zero =>
+    intro bs vs h
+    cases bs with
+    | nil => simp [decListWith] at h; subst h; simp [Val.payloadL, Val.cellsL]
+    | cons b bs => simp [decListWith] at h
+  | succ fuel ih =>
+    intro bs vs h
+    cases bs with
+    | nil => simp [decListWith] at h; subst h; simp [Val.payloadL, Val.cellsL]
+    | cons b bs =>
+      simp only [decListWith] at h
+      split at h
+      · cases h
+      rename_i v rest h1
+      split at h
+      · rename_i hlt
+        split at h
+        · cases h
+        rename_i ws hws
+        cases h
+        obtain ⟨a1, a2, a3⟩ := hfd _ _ _ h1
+        obtain ⟨b1, b2⟩ := ih rest ws hws
+        simp only [Val.payloadL, Val.cellsL, List.length_cons] at *
+        omega
+      · cases h
+
+mutual
+theorem dec_alloc : ∀ (t : Ty) (bs rest : Bytes) (v : Val), dec t bs = .ok (v, rest) → AllocOK v bs rest
+  | .uint w, bs, rest, v, h => by
+    simp only [dec] at h
+    split at h
+    · cases h; simp [AllocOK, Val.payload, Val.cells]
+    · cases h
+  | .enum i, bs, rest, v, h => by
+    simp only [dec] at h
+    split at h
+    · cases h
+    rename_i n r1 hv
+    cases h
+    obtain ⟨e1, _⟩ := readVar_inv i bs _ n hv
+    simp [AllocOK, Val.payload, Val.cells, e1]
+  | .arr k, bs, rest, v, h => by
+    simp only [dec] at h
+    split at h
+    · cases h; simp [AllocOK, Val.payload, Val.cells]; omega
+    · cases h
+  | .bytes i, bs, rest, v, h => by
+    simp only [dec] at h
+    split at h
+    · cases h
+    rename_i body r1 hv
+    cases h
+    obtain ⟨hl, _⟩ := readPrefixed_len i bs body _ hv
+    refine ⟨by omega, ?_, Or.inl rfl⟩
+    simp only [Val.payload]
+    omega
+  | .vec i e, bs, rest, v, h => by
+    simp only [dec] at h
+    split at h
+    · cases h
+    rename_i body r1 hv
+    split at h
+    · cases h
+    rename_i vs hvs
+    cases h
+    obtain ⟨hl, h0⟩ := readPrefixed_len i bs body _ hv
+    obtain ⟨p1, p2⟩ := decListWith_alloc (dec e) (fun bs v rest h => dec_alloc e bs rest v h) _ _ _ hvs
+    simp only [AllocOK, Val.payload, Val.cells]
+    refine ⟨by omega, by omega, ?_⟩
+    by_cases hc : i.count = 0
+    · have := h0 hc
+      subst this
+      simp only [List.length_nil] at p2
+      left; omega
+    · right; omega
+  | .struct fs, bs, rest, v, h => by
+    simp only [dec] at h
+    split at h
+    · cases h
+    rename_i vs r1 hv
+    cases h
+    have := decFields_alloc fs _ _ _ bs _ vs hv
+    simpa [AllocOK, Val.payload, Val.cells] using this
+  | .bad, bs, rest, v, h => by simp [dec] at h
+theorem decFields_alloc : ∀ (fs : Fields) (env : Env) (men tak : List String) (bs rest : Bytes) (vs : List Val),
+    decFields env men tak fs bs = .ok (vs, rest) →
+      rest.length ≤ bs.length ∧ Val.payloadL vs + rest.length ≤ bs.length ∧
+        (Val.cellsL vs = 0 ∨ Val.cellsL vs + rest.length + 1 ≤ bs.length)
+  | .nil, env, men, tak, bs, rest, vs, h => by
+    simp only [decFields] at h
+    split at h
+    · cases h; simp [Val.payloadL, Val.cellsL]
+    · cases h
+  | .plain name t rest', env, men, tak, bs, rest, vs, h => by
+    simp only [decFields] at h
+    split at h
+    · cases h
+    rename_i v bs1 h1
+    split at h
+    · cases h
+    rename_i ws bs2 h2
+    cases h
+    obtain ⟨a1, a2, a3⟩ := dec_alloc t bs bs1 v h1
+    obtain ⟨b1, b2, b3⟩ := decFields_alloc rest' _ men tak bs1 _ ws h2
+    simp only [Val.payloadL, Val.cellsL]
+    refine ⟨by omega, by omega, ?_⟩
+    rcases a3 with a3 | a3 <;> rcases b3 with b3 | b3
+    · left; omega
+    · right; omega
+    · right; omega
+    · right; omega
+  | .variant name sel val t rest', env, men, tak, bs, rest, vs, h => by
+    simp only [decFields] at h
+    split at h
+    · cases h
+    split at h
+    · split at h
+      · cases h
+      rename_i ws bs2 h2
+      cases h
+      have := decFields_alloc rest' env (sel :: men) tak bs _ ws h2
+      simpa [Val.payloadL, Val.cellsL, Val.payload, Val.cells] using this
+    · split at h
+      · cases h
+      split at h
+      · cases h
+      rename_i v bs1 h1
+      split at h
+      · cases h
+      rename_i ws bs2 h2
+      cases h
+      obtain ⟨a1, a2, a3⟩ := dec_alloc t bs bs1 v h1
+      obtain ⟨b1, b2, b3⟩ := decFields_alloc rest' env (sel :: men) (sel :: tak) bs1 _ ws h2
+      simp only [Val.payloadL, Val.cellsL]
+      refine ⟨by omega, by omega, ?_⟩
+      rcases a3 with a3 | a3 <;> rcases b3 with b3 | b3
+      · left; omega
+      · right; omega
+      · right; omega
+      · right; omega
+end
+
 end Tls
